@@ -16,9 +16,10 @@ import (
 	"regexp/syntax"
 	"strconv"
 	"strings"
+	. "vh/kit"
 )
 
-func init() { register("gen-constants", runGenConstants) }
+func main() { Main("gen-constants", runGenConstants) }
 
 type gcFile struct {
 	f      *ast.File
@@ -288,10 +289,7 @@ func regexCoq(src string) (string, error) {
 }
 
 func runGenConstants(a *Args) error {
-	repo := "/repo"
-	if len(a.Extra) > 0 {
-		repo = a.Extra[0]
-	}
+	repo := a.Repo
 	var b strings.Builder
 	b.WriteString("(* GENERATED by `vh gen-constants` from the Go sources of /repo on every run.\n   Do not edit: theorems over these objects are re-checked against what the\n   source says now. *)\nFrom NV Require Import Base Regex.\nOpen Scope string_scope.\nOpen Scope N_scope.\n\n")
 
